@@ -26,6 +26,9 @@ def main():
     wt = tempfile.mkdtemp(prefix="tulz-benignwt.", dir="/var/tmp")
     ev = tempfile.mkdtemp(prefix="tulz-benignev.", dir="/var/tmp")
     os.rmdir(wt)
+    # a private copy of the Lake project: the translators of the checks below write their tables there, never into /verif/lean
+    lean_copy = tempfile.mkdtemp(prefix="tulz-lean-selftest.", dir="/var/tmp")
+    subprocess.run(["rsync", "-a", os.path.join(VERIF, "lean") + "/", lean_copy + "/"], check=True)
     subprocess.run(["git", "-C", "/repo", "worktree", "add", "-q", wt, "HEAD"], check=True)
     alarms = 0
     try:
@@ -42,7 +45,7 @@ def main():
                 for k, v in TOUCH.items():
                     if k in t:
                         props += [p for p in v if p not in props]
-            env = dict(os.environ, TULZ_REPO=wt, VERIF_EVIDENCE_DIR=ev)
+            env = dict(os.environ, TULZ_REPO=wt, VERIF_EVIDENCE_DIR=ev, VERIF_LEAN_DIR=lean_copy)
             for p in props:
                 out = subprocess.run([sys.executable, os.path.join(VERIF, "tools", "check.py"), p], cwd=VERIF, env=env, capture_output=True, text=True).stdout
                 lines = out.split("\n")
@@ -55,8 +58,7 @@ def main():
     finally:
         subprocess.run(["git", "-C", "/repo", "worktree", "remove", "--force", wt])
         shutil.rmtree(ev, ignore_errors=True)
-        # the translators wrote lean/Tulz/Generated/* from the scratch worktree: put back what /repo says
-        subprocess.run([sys.executable, os.path.join(VERIF, "tools", "translate_all.py")], env=dict(os.environ, TULZ_REPO="/repo"), capture_output=True)
+        shutil.rmtree(lean_copy, ignore_errors=True)
     print("alarms on benign refactorings: %d" % alarms)
     return 1 if alarms else 0
 
